@@ -43,7 +43,12 @@ RULE = ("struct: class bodies = items {function, classmethod, staticmethod, prop
         "log, outcome, value); every struct case may be preceded by 1-2 EARLIER classes (slotted or dict) built from the very same "
         "body objects (function objects, classmethod/property/cached_property wrappers, user __getattr__, attr.ib()s) -- a "
         "history the model does not see; on the class under test a failed lookup must be exactly AttributeError, hasattr False, "
-        "getattr-with-default the default, copy.copy / copy.deepcopy work. "
+        "getattr-with-default the default, copy.copy / copy.deepcopy work; base classes / the mixin (plain or attrs, slotted or not) "
+        "may carry a cooperative __getattr__ fallback answering every name containing 'gq': public, underscore-led, name-mangled "
+        "and dunder-like probe names must get the same answer from the slotted build as from the dict build of the same class "
+        "object (lookupDiff 'fallback:<name>'); the class docstring's VALUE varies {text, '', 0, False, explicit None} and plain "
+        "body attributes (also under mangled / dunder-like keys) take falsy values {0, None, '', False}: each must be carried "
+        "over as the identical object. "
         "isub: every chain of <=3 (quick) / <=5 (thorough) levels over {plain, dict attrs, slotted attrs} x defines-hook, "
         "random longer ones. meta: initbuild class chains (C01/C02/C12 space) built with leaf slots on and off x call "
         "shapes (malformed included) x single-fault positions x operations x FIELD names (dunder-like `__z__`, underscore-led, machinery-sounding names, renamed "
@@ -83,6 +88,9 @@ ASSUMPTIONS = [
     "model is a function of the body's keys and item kinds and never sees a function's __name__",
     "struct: what an 'other' closure cell holds is harness-only variation: the model (and C08_cells_exact) says every cell not "
     "holding the original class is untouched whatever it holds, so the object kinds need no counterpart in the Lean CellVal",
+    "struct: the base-class __getattr__ fallback and the docstring's value are harness-only variation: the model never sees "
+    "them (it says lookupDiff = [] and every non-special class-dict entry is the same object, whatever its value); the fallback "
+    "comparison is an observed relation between the slotted class and the dict build of the same class object",
     "struct: the earlier classes of a case's history are context only (their own defects are reported when they are the class "
     "under test); the Lean model is a function of the class under test alone, so any influence of the history is a violation or a "
     "disagreement; hasattr / getattr-default / copy / deepcopy are observed consequences of 'unknown attribute -> AttributeError'",
@@ -138,6 +146,8 @@ def gen_struct(rng):
     hs["weakref_slot"] = rng.random() < 0.6
     hs["cache_hash"] = rng.random() < 0.15
     hs["doc"] = rng.random() < 0.5
+    # the docstring's VALUE (harness-only): text, the empty string, other falsy objects, an explicit None
+    hs["doc_kind"] = rng.choice(["text", "text", "empty", "empty", "zero", "false", "none"])
     hs["qualname"] = rng.choice([None, None, "Outer.<locals>.Inner"])
     # ---- bases
     bases = []
@@ -183,6 +193,8 @@ def gen_struct(rng):
             bs["isub"] = True
         if rng.random() < 0.2:
             bs["isc"] = True        # an __init_subclass__ that annotates every subclass (original and replacement)
+        if rng.random() < 0.3:
+            bs["getattr"] = True    # a cooperative __getattr__ fallback answering names that contain 'gq'
         bases.append(bs)
     if bases and bases[0]["kind"] == "exc":        # hash caching is refused on exception classes
         hs["cache_hash"] = False
@@ -195,6 +207,8 @@ def gen_struct(rng):
         # then a direct base without being `__base__`)
         hs["mixin"] = {"kind": rng.choice(["pempty", "pdict"]), "isub": rng.random() < 0.4,
                        "first": rng.random() < 0.5}
+        if rng.random() < 0.25:
+            hs["mixin"]["getattr"] = True
         if hs["mixin"]["kind"] == "pdict":
             weak = True
     # class-level hooks in a base are written with attr.s(on_setattr=...): realised in build_bases through a field hook
@@ -236,7 +250,7 @@ def gen_struct(rng):
         if shadow and rng.random() < 0.12 and kind in ("fn", "plain", "prop"):
             key = shadow.pop()
         if kind == "plain":
-            items.append([key, {"k": "plain", "value": rng.choice([0, "s", None])}])
+            items.append([key, {"k": "plain", "value": rng.choice([0, "s", None, "", False])}])
         elif kind == "prop":
             spec = {"k": "prop"}
             spec["fget"] = _fnspec(rng, natural, cell_pool, "fget", 0.5) if rng.random() < 0.85 else None
@@ -259,7 +273,7 @@ def gen_struct(rng):
     # lambda, or the name of ANOTHER member or field)
     renamed = {}
     for j, (key, spec) in enumerate(items):
-        if spec["k"] == "plain" or key in inherited:
+        if key in inherited:
             continue
         r = rng.random()
         if r < 0.15:
@@ -703,13 +717,13 @@ def shrink(case):
             cands.append(h2)
         for key, v in (("mixin", None), ("meta", "type"), ("api", "attr.s"), ("natural", False), ("frozen", False),
                        ("hook", False), ("cache_hash", False), ("doc", False), ("qualname", None), ("accesses", []),
-                       ("weakref_slot", True), ("body_slots", None), ("history", []), ("ft", [])):
+                       ("weakref_slot", True), ("body_slots", None), ("history", []), ("ft", []), ("doc_kind", "text")):
             if hs.get(key) != v:
                 h2 = copy.deepcopy(hs)
                 h2[key] = v
                 cands.append(h2)
         for i, bs in enumerate(hs["bases"]):
-            for key in ("isub", "hook", "cprops", "cache_hash"):
+            for key in ("isub", "hook", "cprops", "cache_hash", "getattr", "isc"):
                 if bs.get(key):
                     h2 = copy.deepcopy(hs)
                     h2["bases"][i].pop(key)
